@@ -177,10 +177,6 @@ def curated_behaviour():
         ('C', 'enum', [('A', ('tuple', [(True, N('A'))])), ('B', ('tuple', [(True, N('B'))]))]),
         ('A', 'struct', [(None, ('tuple', [(True, T('X')), (True, T('Y'))]))]),
         ('B', 'struct', [(None, ('tuple', [(True, T('X')), (True, T('Z'))]))])]))
-    # K3's witness: an unproductive nonterminal behind a shared prefix (the only sentence is `A C`; `A Bt` is a dead prefix)
-    specs.append(G('S', [('A', '()'), ('Bt', '()'), ('C', '()')], [
-        ('S', 'enum', [('A', ('tuple', [(False, T('A')), (True, N('B'))])), ('C', ('tuple', [(False, T('A')), (False, T('C'))]))]),
-        ('B', 'struct', [(None, ('tuple', [(False, T('Bt')), (True, N('B'))]))])]))
     # a state with a transition to itself that brings a new lookahead (prefix operator + postfix context): * * x ! !
     specs.append(G('Deref', [('Star', '()'), ('Bang', '()'), ('Ident', 'u32')], [
         ('Deref', 'struct', [(None, ('tuple', [(False, T('Star')), (True, N('Operand'))]))]),
@@ -376,28 +372,21 @@ def expected_line(g, ref, pruned, productive_all, w):
     c = canonical_lr1_run(ref, g, w)
     if e[0] == 'accept':
         if c[0] != 'accept':
-            return None, 'oracles disagree (earley accepts, canonical LR(1) %r)' % (c,), None
-        return 'Ok(%s) pulls=%d' % (debug_render(g, c[1]), len(w) + 1), None, None
+            return None, 'oracles disagree (earley accepts, canonical LR(1) %r)' % (c,)
+        return 'Ok(%s) pulls=%d' % (debug_render(g, c[1]), len(w) + 1), None
     if c[0] == 'accept':
-        return None, 'oracles disagree (canonical LR(1) accepts)', None
-    # the index the property asks for: the first token that no sentence can contain there (earley, exact once the rules
-    # mentioning unproductive nonterminals are pruned).  A canonical LR(1) parser stops there too when every nonterminal is
-    # productive; with an unproductive nonterminal it may stop later (known finding K3) — that line is returned as well.
+        return None, 'oracles disagree (canonical LR(1) accepts)'
+    # the index: for grammars whose nonterminals are all productive, the first token no sentence can
+    # contain there (earley); otherwise the index at which a canonical LR(1) parser stops
+    idx = e if productive_all else c
     if productive_all and c != e:
-        return None, 'oracles disagree on the error index (earley %r, canonical LR(1) %r)' % (e, c), None
-
-    def line(idx):
-        if idx[0] == 'eof':
-            return 'Err(None) pulls=%d' % (len(w) + 1)
-        if idx[0] == 'error':
-            i = idx[1]
-            return 'Err(Some(%s)) pulls=%d' % (token_debug(g, w[i], i), i + 1)
-        return None
-
-    want = line(e)
-    if want is None:
-        return None, 'earley prefix test gave %r' % (e,), None
-    return want, None, (line(c) if c != e else None)
+        return None, 'oracles disagree on the error index (earley %r, canonical LR(1) %r)' % (e, c)
+    if idx[0] == 'eof':
+        return 'Err(None) pulls=%d' % (len(w) + 1), None
+    if idx[0] == 'error':
+        i = idx[1]
+        return 'Err(Some(%s)) pulls=%d' % (token_debug(g, w[i], i), i + 1), None
+    return None, 'canonical LR(1) reference is not deterministic: %r' % (idx,)
 
 
 def g_to_file_canon(g, mt_line):
@@ -544,9 +533,9 @@ def behaviour_check(ctx, pid):
             res.count((s, tuple(w)), len(w) >= 2)
             if i < 2 and j < 3:
                 res.sample(dict(grammar=short(s, 160), input=w, impl=got))
-            want, why, canon = (None, None, None)
+            want, why = (None, None)
             if ref is not None:
-                want, why, canon = expected_line(g, ref, pruned, productive_all, w)
+                want, why = expected_line(g, ref, pruned, productive_all, w)
                 if want is not None:
                     checked += 1
             relevant = True
@@ -561,20 +550,12 @@ def behaviour_check(ctx, pid):
                     kinds = {'C02'}
                 else:
                     kinds = {'C03'}
-                if kinds == {'C03'} and canon is not None and got == canon and not productive_all:
-                    # K3: the grammar has an unproductive nonterminal and the parser stops where every canonical LR(1)
-                    # parser of the grammar stops, later than the first token that no sentence continues
-                    if pid == 'C03':
-                        res.failures.append(dict(kind='error-index-past-a-dead-prefix (unproductive nonterminal; = canonical LR(1))',
-                                                 src=s, input=w, impl=got, expected=want))
-                        continue
-                elif pid in kinds:
+                if pid in kinds:
                     kind = pid
                     res.failures.append(dict(kind={'C01': 'wrong-acceptance-or-panic', 'C02': 'wrong-tree', 'C03': 'wrong-error-token-or-pulls'}[kind],
                                              src=s, input=w, impl=got, expected=want))
                     continue
-                else:
-                    relevant = False
+                relevant = False
             if mres is not None and got != mres[j] and relevant:
                 res.disagreements.append(dict(kind='emitted-parser-run', src=s, input=w, impl=got, model=mres[j]))
     for i in badval:
